@@ -164,7 +164,137 @@ def r11_5(run, model):
     run.floor("positive control: trim_* calls recognised in lower.rs", ctrl, 1)
 
 
+FORM_LEDGER = {}  # (function, CST form) -> reason why the arm may return a lowered child unchanged
+
+
+def r11_6(run, model):
+    run.rule("R11.6", "type lowering is form-preserving: every value an arm of lower_ty returns for a CST type form is built by an "
+                      "ast::TypeExpr constructor in that arm (directly or through a local bound to one), never a lowered child passed through "
+                      "(`(T)` stays a 1-tuple / parameter list, it is not silently the element)")
+    f = model.fn("lower_ty", LOWER)
+    ms = list(S.find(f.body, "Match"))
+    if not ms:
+        raise AnalysisIncomplete("lower_ty: no match")
+    m = ms[0]
+    n = 0
+    for arm in m["arms"]:
+        pt = S.norm_ws(run.facts.text(LOWER, arm["pat"]["sp"]))
+        mm = re.search(r"cst::Type::([A-Za-z0-9]+)", pt)
+        if not mm:
+            continue
+        form = mm.group(1)
+        lets = {}
+        for l in S.find(arm["body"], "Local"):
+            if l.get("init") is not None:
+                for b in S.pat_bindings(l["pat"]):
+                    lets[b] = l["init"]
+        results = []
+        body = arm["body"]
+        tails = [body]
+        while tails:
+            t = tails.pop()
+            if t["k"] == "Block":
+                if t["stmts"] and t["stmts"][-1]["k"] == "ExprStmt" and not t["stmts"][-1].get("semi"):
+                    tails.append(t["stmts"][-1]["expr"])
+                elif t.get("expr") is not None:
+                    tails.append(t["expr"])
+            elif t["k"] == "If":
+                tails.append(t["then"])
+                if t.get("else") is not None:
+                    tails.append(t["else"])
+            elif t["k"] == "Match":
+                tails.extend(a["body"] for a in t["arms"])
+            else:
+                results.append(t)
+        results += [r["expr"] for r in S.walk_no_closures(body) if r["k"] == "Return" and r.get("expr") is not None]
+
+        def built(e, depth=0):
+            if e["k"] == "Call" and S.callee_name(e) == "Some" and e["args"]:
+                return built(e["args"][0], depth)
+            if e["k"] in ("Struct", "Path", "Call") and "TypeExpr" in (e.get("segs") or (e.get("func") or {}).get("segs") or []):
+                return True
+            if e["k"] == "Path" and len(e["segs"]) == 1:
+                if e["segs"][0] == "None":
+                    return True
+                if e["segs"][0] in lets and depth < 3:
+                    return built(lets[e["segs"][0]], depth + 1)
+            return False
+
+        for r in results:
+            n += 1
+            ok = built(r) or FORM_LEDGER.get(("lower_ty", form)) is not None
+            rt = S.norm_ws(run.facts.text(LOWER, r["sp"]))[:60]
+            run.ob("R11.6", f"lower_ty|{form} yields its own form" if ok else f"lower_ty|{form} returns `{rt}`", ok, site(LOWER, r["sp"]),
+                   f"result `{rt}`",
+                   witness="((int32, int32)) -> int32 (one pair parameter) is read as (int32, int32) -> int32 (two parameters); (int32,) is read as int32")
+    run.floor("result expressions of lower_ty arms", n, 20)
+
+
+ARGS_LEDGER = {"ECall": "further arguments applied to a call result are applied call by call (existing behaviour for f(a)(b) under a prefix operator)"}
+
+
+def r11_7(run, model):
+    run.rule("R11.7", "arguments written in one pair of parentheses form one call: apply_trailing_args hands the argument vector on whole "
+                      "(`args: trailing_args`, `extend(trailing_args)`, or the recursive call), it is iterated element by element only in the ledgered arm")
+    f = model.fn("apply_trailing_args", LOWER)
+    argp = None
+    for p in f.params():
+        if "Vec<ast::Expr>" in (p["ty"] or "").replace(" ", ""):
+            argp = p["pat"]["name"]
+    if argp is None:
+        raise AnalysisIncomplete("apply_trailing_args: argument vector parameter not found")
+    helpers = {g.name: g for g in model.fns(LOWER) if g.body is not None}
+    ms = list(S.find(f.body, "Match"))
+    if not ms:
+        raise AnalysisIncomplete("apply_trailing_args: no match")
+    n = 0
+    for arm in ms[0]["arms"]:
+        pt = S.norm_ws(run.facts.text(LOWER, arm["pat"]["sp"]))
+        mm = re.search(r"ast::Expr::([A-Za-z0-9]+)", pt)
+        if not mm or argp not in S.idents(arm["body"]):
+            continue
+        form = mm.group(1)
+        n += 1
+        par = S.Parents(arm["body"])
+        uses = [x for x in S.walk(arm["body"]) if x["k"] == "Path" and x["segs"] == [argp]]
+        how = []
+        for u in uses:
+            p_ = par.parent(u)
+            if p_ is None:
+                how.append("whole")  # the arm body is the vector itself
+            elif p_["k"] == "For":
+                how.append("elementwise")
+            elif p_["k"] == "MethodCall" and p_["method"] in ("extend", "append") and u in p_["args"]:
+                how.append("whole")
+            elif p_["k"] == "MethodCall" and p_["recv"] is u and p_["method"] in ("into_iter", "iter", "drain", "pop", "remove", "first", "split_first", "get"):
+                how.append("elementwise")
+            elif p_["k"] == "Call" and u in p_["args"]:
+                cn = S.callee_name(p_)
+                if cn in ("apply_trailing_args", "lower_expr_with_args"):
+                    how.append("whole")
+                elif cn in helpers:
+                    g = helpers[cn]
+                    idx = p_["args"].index(u)
+                    ps = [q for q in g.params() if not q["self"]]
+                    pn = ps[idx]["pat"].get("name") if idx < len(ps) else None
+                    it = any(l["k"] == "For" and pn in S.idents(l["iter"]) for l in S.walk(g.body)) or \
+                        any(c["k"] == "MethodCall" and c["method"] in ("into_iter", "iter", "drain", "pop") and S.is_path(c["recv"], pn) for c in S.walk(g.body))
+                    how.append("elementwise" if it else "whole")
+                else:
+                    how.append("whole")
+            else:
+                how.append("whole")  # struct field `args: trailing_args`
+        ew = "elementwise" in how
+        led = ARGS_LEDGER.get(form)
+        run.ob("R11.7", f"apply_trailing_args|{form} keeps the argument list whole", (not ew) or led is not None, site(LOWER, arm["sp"]),
+               f"`{argp}` consumed {sorted(set(how))}" + (f"; ledger: {led}" if ew and led else ""),
+               witness="-clamp(12, 0, 9) is read as -clamp(12)(0)(9)")
+    run.floor("arms of apply_trailing_args that consume the arguments", n, 5)
+
+
 def run(run, model):
+    run.try_rule(r11_6, model)
+    run.try_rule(r11_7, model)
     run.try_rule(r11_1, model)
     run.try_rule(r11_2, model)
     run.try_rule(r11_3, model)
